@@ -236,6 +236,8 @@ pub enum Op {
     /// concurrent cache: a get during which `Clone` of the stored value panics (if the key
     /// is found alive); the caller catches the panic
     GetCP(u8),
+    /// concurrent cache: a second handle is created (`clone()`) and dropped again
+    CloneDrop,
 }
 
 impl Op {
@@ -259,6 +261,7 @@ impl Op {
             Op::InsWP(_) => "insert-weigher-panics",
             Op::InsCP(_) => "insert-clone-panics",
             Op::GetCP(_) => "get-clone-panics",
+            Op::CloneDrop => "clone-and-drop-handle",
         }
     }
     pub fn text(&self) -> String {
@@ -282,6 +285,7 @@ impl Op {
             Op::Sync => "sync".into(),
             Op::IterAdv(n) => format!("iteradv({n})"),
             Op::IterInvAll => "iterinvall".into(),
+            Op::CloneDrop => "clonedrop".into(),
         }
     }
     pub fn parse(s: &str) -> Op {
@@ -323,6 +327,7 @@ impl Op {
             "inswp" => Op::InsWP(n(0)),
             "inscp" => Op::InsCP(n(0)),
             "getcp" => Op::GetCP(n(0)),
+            "clonedrop" => Op::CloneDrop,
             _ => panic!("bad op {s}"),
         }
     }
@@ -521,6 +526,7 @@ impl Sut {
                     Obs::Items(v)
                 }
                 Op::IterInvAll => panic!("harness: the unsync cache cannot be invalidated while an iterator borrows it"),
+                Op::CloneDrop => panic!("harness: the unsync cache has one owner"),
             },
             Sut::S { c, clock } => match op {
                 Op::Ins(k, w) => {
@@ -583,6 +589,10 @@ impl Sut {
                     let mut v: Vec<(u8, u32)> = it.map(|r| (r.key().k, r.value().id)).collect();
                     v.sort();
                     Obs::Items(v)
+                }
+                Op::CloneDrop => {
+                    drop(c.clone());
+                    Obs::Unit
                 }
                 Op::IterInvAll => {
                     // (no map guard is held before the first next())
@@ -663,6 +673,8 @@ pub fn alphabet(cfg: &Cfg) -> Vec<Op> {
             a.push(Op::InvAll);
             if s {
                 a.push(Op::IterInvAll);
+                // handles come and go while operations are pending
+                a.push(Op::CloneDrop);
             }
             if !s {
                 a.push(Op::InvIf(Pred::Keys(0b001)));
@@ -752,6 +764,9 @@ pub fn alphabet(cfg: &Cfg) -> Vec<Op> {
             per_key(&mut a, Op::Get, n);
             per_key(&mut a, Op::Inv, n);
             a.push(Op::InvAll);
+            if s {
+                a.push(Op::CloneDrop);
+            }
             if !s {
                 a.push(Op::InvIf(Pred::Keys(0b001)));
                 a.push(Op::InvIf(Pred::All));
@@ -798,6 +813,12 @@ pub fn alphabet(cfg: &Cfg) -> Vec<Op> {
             }
             per_key(&mut a, Op::Get, n);
             per_key(&mut a, Op::Inv, n.min(2));
+            // several heavy entries leave in one call (their weights are summed up)
+            if !s {
+                a.push(Op::InvIf(Pred::All));
+                a.push(Op::InvIf(Pred::Keys(0b011)));
+            }
+            a.push(Op::InvAll);
             if cfg.a > 0 && cfg.has_expiry() {
                 a.push(Op::Adv(2));
             }
